@@ -1059,5 +1059,100 @@ def fun_oracle(req):
     return []
 
 
+# ---------------------------------------------------------------- array-section actuals (gfortran oracle: FIR has no section actuals)
+
+def gen_sec_request(rng, force_diff=False):
+    """call inner(a(s1:e1, s2:e2)) with explicit (non-zero) section lower bounds; caller and callee arrays with assorted declared
+    lower bounds; the callee indexes its dummy element by element"""
+    while True:
+        l1, l2 = rng.choice((-1, 0, 1, 2)), rng.choice((-1, 0, 1, 2))
+        if force_diff and l1 == l2:
+            continue
+        n1, n2 = rng.randint(2, 3), rng.randint(2, 3)
+        s1, s2 = l1 + rng.randint(0, 2), l2 + rng.randint(0, 2)
+        if s1 == 0 or s2 == 0:
+            continue          # a literal 0 lower bound is taken for "no lower bound" (truthiness test): reported, not generated
+        u1, u2 = s1 + n1 - 1 + rng.randint(0, 1), s2 + n2 - 1 + rng.randint(0, 1)
+        cl1, cl2 = rng.choice((1, 1, 1, 0, 2, -1)), rng.choice((1, 1, 1, 0, 2, -1))
+        mode = rng.choice(('internal', 'marked'))
+        return [A('sec'), A(mode), l1, u1, l2, u2, s1, n1, s2, n2, cl1, cl2, rng.randint(0, 1)]
+
+
+def sec_source(mode, l1, u1, l2, u2, s1, n1, s2, n2, cl1, cl2, variant):
+    inner = ['subroutine inner(x)', f'  integer, intent(inout) :: x({cl1}:{cl1 + n1 - 1}, {cl2}:{cl2 + n2 - 1})', '  integer :: j, k',
+             f'  do k = {cl2}, {cl2 + n2 - 1}', f'    do j = {cl1}, {cl1 + n1 - 1}', '      x(j, k) = x(j, k) + 10 * j + k', '    end do']
+    if variant == 1:
+        inner += [f'    x({cl1}, k) = x({cl1 + n1 - 1}, k) - 1']
+    inner += ['  end do', 'end subroutine inner']
+    call = f'  call inner(a({s1}:{s1 + n1 - 1}, {s2}:{s2 + n2 - 1}))'
+    head = ['subroutine kernel(a)', '  implicit none', f'  integer, intent(inout) :: a({l1}:{u1}, {l2}:{u2})']
+    if mode == 'internal':
+        lines = head + [call, 'contains'] + ['  ' + l for l in inner] + ['end subroutine kernel']
+    else:
+        lines = head + ['  !$loki inline', call, 'end subroutine kernel'] + inner
+    return '\n'.join(lines) + '\n'
+
+
+def sec_driver(l1, u1, l2, u2):
+    return '\n'.join(['program p', 'implicit none', f'integer :: a({l1}:{u1}, {l2}:{u2}), i, j', f'do j = {l2}, {u2}', f'  do i = {l1}, {u1}',
+                      '    a(i, j) = 100 * i + j', '  end do', 'end do', 'call kernel(a)', 'print *, a', 'end program p']) + '\n'
+
+
+def _compile_run(texts, driver):
+    """gfortran-compile each text with the driver and run; returns list of ('ok', tokens) | ('compile-error', msg)"""
+    import subprocess, tempfile, os
+    outs = []
+    with tempfile.TemporaryDirectory() as d:
+        for j, t in enumerate(texts):
+            f = os.path.join(d, f'p{j}.f90')
+            with open(f, 'w') as fh:
+                fh.write(t + '\n' + driver)
+            p = subprocess.run([fir.GFORTRAN] + fir.GFORTRAN_FLAGS + ['-J', d, '-o', os.path.join(d, f'p{j}'), f],
+                               stdout=subprocess.PIPE, stderr=subprocess.STDOUT, text=True, timeout=180, cwd=d)
+            if p.returncode != 0:
+                outs.append(('compile-error', p.stdout.strip()[:200]))
+                continue
+            q = subprocess.run([os.path.join(d, f'p{j}')], stdout=subprocess.PIPE, stderr=subprocess.STDOUT, text=True, timeout=60)
+            outs.append(('ok' if q.returncode == 0 else 'run-error', q.stdout.split()))
+    return outs
+
+
+def sec_transform(req):
+    from loki import Sourcefile, fgen
+    from loki.frontend import FP
+    from loki.transformations.inline import inline_internal_procedures, inline_marked_subroutines
+    mode = str(req[1])
+    pars = [int(str(x)) for x in req[2:13]]
+    if len(req) != 13 or mode not in ('internal', 'marked'):
+        raise ValueError('malformed request')
+    src = sec_source(mode, *pars)
+    sf = Sourcefile.from_source(src, frontend=FP)
+    k = sf['kernel']
+    if mode == 'internal':
+        inline_internal_procedures(k)
+    else:
+        k.enrich(sf.all_subroutines)
+        inline_marked_subroutines(k)
+    return src, fgen(sf.ir), pars
+
+
+def sec_oracle(req):
+    try:
+        src, text, pars = sec_transform(req)
+    except ValueError:
+        raise
+    except Exception as e:
+        return [Failure(f'inlining with a section actual raised {type(e).__name__}: {str(e)[:120]}', None)]
+    l1, u1, l2, u2 = pars[:4]
+    res = _compile_run([src, text], sec_driver(l1, u1, l2, u2))
+    if res[0][0] != 'ok':
+        return []
+    if res[1][0] != 'ok':
+        return [Failure(f'inlining with a section actual: transformed code fails under gfortran ({res[1][0]}): {str(res[1][1])[:120]}', None)]
+    if res[0][1] != res[1][1]:
+        return [Failure('inlining with a section actual: transformed program computes different array contents (gfortran)', None)]
+    return []
+
+
 PROP = C28()
 READY = True
